@@ -336,7 +336,13 @@ def acceptFrom (v : Variant) : Sim → Nat → List Ev → Option Nat × Sim
 def accept (v : Variant) (tr : List Ev) : Option Nat × Sim :=
   acceptFrom v (close v { states := [init] }) 0 tr
 
-/-! ## (b) renewal automaton on a fake clock -/
+/-! ## (b) renewal automaton on a fake clock
+
+A fetch takes time: the rotation goroutine issues the request (`issue`: fresh key, request stamped with
+the clock) and is then blocked in `requestSVIDFn` — mode `inflight`, no timer armed — while the clock
+may advance arbitrarily; the environment action `answer` delivers the issuer's reply at whatever the
+clock then shows.  Nothing is locked and `svid` is untouched in between (`advance` in mode `inflight`
+only moves the clock). -/
 
 /-- Cap of the rotation timer: the constant in the source (`time.Minute`), regenerated on every run. -/
 def minute : Int := Kit.Generated.C19.wakeCapNs
@@ -357,20 +363,24 @@ structure Cert where
 inductive Reply where
   | fail
   | ok (nb na : Int)
-  | okAnchorsFail (nb na : Int)   -- chain issued, but `CurrentTrustAnchors` fails (matters only with a write dir)
+  | okAnchorsFail (nb na : Int)   -- chain issued, but `CurrentTrustAnchors` / `dir.Write` fails (matters only with a write dir)
   deriving DecidableEq, Repr
 
 inductive Mode where
-  | waiting | retrying | dead
+  | waiting     -- in the select on the rotation timer
+  | retrying    -- in the select on the 10 s timer after a failed renewal
+  | inflight    -- inside `fetchIdentityCertificate`: request outstanding at the issuer, no timer armed
+  | dead        -- the initial fetch failed: Run returned, no rotation
   deriving DecidableEq, Repr
 
-/-- One request seen by the issuer. -/
+/-- One request seen by the issuer, recorded when it is answered. -/
 structure Req where
-  stamp : Int        -- clock value at the request
+  stamp : Int        -- clock value when the request was issued
   tok : Nat          -- the fresh key it carries
   good : Bool        -- the fetch returned an SVID
-  anchors : Nat      -- trust-anchor version current at the request
+  anchors : Nat      -- trust-anchor version current when the file set was written (at the answer)
   half : Int := 0    -- ghost: renewal time (half of validity) of the certificate issued, if any
+  answered : Int := 0  -- clock value when the answer was processed
   deriving DecidableEq, Repr
 
 /-- One `dir.Write` call = one complete file set `{key.pem, cert.pem, ca.pem}`. -/
@@ -391,25 +401,40 @@ structure RN where
   dirOn : Bool := false
   anchors : Nat := 0
   nextTok : Nat := 0
-  log : List Req := []            -- newest first
+  log : List Req := []            -- answered requests, newest first
   timers : List (Int × Int) := [] -- every `clock.After(d)` call: (now, d), newest first
   pub : List FileSet := []        -- every `dir.Write` call, newest first
+  reqTok : Nat := 0               -- the outstanding request (mode `inflight`): its key,
+  reqAt : Int := 0                --   the clock value when it was issued,
+  reqInit : Bool := false         --   and whether it is the initial fetch of `Run`
   deriving DecidableEq, Repr
 
-/-- `fetchIdentityCertificate`: fresh key `nextTok`; one issuer request; on success (and with a write
-directory) one `dir.Write` of `{key, chain, anchors}`. -/
-def fetch (s : RN) : RN × Option Cert :=
-  let k := s.nextTok
-  let (r, rest) : Reply × List Reply := match s.script with | [] => (.fail, []) | r :: rest => (r, rest)
-  let s1 := { s with script := rest, nextTok := k + 1 }
-  let bad : RN × Option Cert := ({ s1 with log := ⟨s.now, k, false, s.anchors, 0⟩ :: s.log }, none)
-  let goodR (nb na : Int) : RN × Option Cert :=
-    ({ s1 with log := ⟨s.now, k, true, s.anchors, renewalTime nb na⟩ :: s.log,
-               pub := if s.dirOn then ⟨k, k, s.anchors⟩ :: s.pub else s.pub }, some ⟨k, nb, na⟩)
-  match r with
-  | .fail => bad
-  | .ok nb na => goodR nb na
-  | .okAnchorsFail nb na => if s.dirOn then bad else goodR nb na
+/-- `fetchIdentityCertificate` begins: a fresh key `nextTok`, the request goes out. -/
+def issue (s : RN) (initial : Bool) : RN :=
+  { s with mode := .inflight, reqTok := s.nextTok, reqAt := s.now, reqInit := initial, nextTok := s.nextTok + 1 }
+
+/-- What the scripted issuer (and, with a write directory, the trust-anchor source / `dir.Write`)
+makes of the outstanding request: the certificate if the fetch succeeds, and the rest of the script.
+An exhausted script is an issuer failure. -/
+def outcome (s : RN) : Option Cert × List Reply :=
+  match s.script with
+  | [] => (none, [])
+  | .fail :: rest => (none, rest)
+  | .ok nb na :: rest => (some ⟨s.reqTok, nb, na⟩, rest)
+  | .okAnchorsFail nb na :: rest => (if s.dirOn then none else some ⟨s.reqTok, nb, na⟩, rest)
+
+/-- Renewal time of the certificate a fetch returned (0 for a failed fetch). -/
+def halfOf : Option Cert → Int
+  | some c => renewalTime c.nb c.na
+  | none => 0
+
+/-- `fetchIdentityCertificate` returns at clock `now`: the request is logged; on success (and with a
+write directory) ONE `dir.Write` of `{key, chain, anchors}` of this fetch. -/
+def complete (s : RN) : RN × Option Cert :=
+  let r := (outcome s).1
+  ({ s with script := (outcome s).2,
+            log := ⟨s.reqAt, s.reqTok, r.isSome, s.anchors, halfOf r, s.now⟩ :: s.log,
+            pub := if s.dirOn && r.isSome then ⟨s.reqTok, s.reqTok, s.anchors⟩ :: s.pub else s.pub }, r)
 
 /-- Top of the rotation loop: `clock.After(min(time.Minute, renewTime.Sub(clock.Now())))`. -/
 def arm (s : RN) : RN :=
@@ -420,34 +445,39 @@ def arm (s : RN) : RN :=
 def wake (s : RN) : RN :=
   match s.mode with
   | .dead => s
+  | .inflight => s
   | .retrying => arm s                      -- `continue`: back to the top of the loop
   | .waiting =>
     if s.now < s.renewAt then arm s          -- `continue`
-    else
-      match fetch s with
-      | (s1, none) =>                        -- failure: `clock.After(10 * time.Second)`
-        { s1 with mode := .retrying, wakeAt := s.now + tenSec, armedAt := s.now,
-                  timers := (s.now, tenSec) :: s1.timers }
-      | (s1, some c) =>                      -- success: swap under the write lock, recompute renew time
-        arm { s1 with svid := some c, renewAt := renewalTime c.nb c.na }
+    else issue s false                       -- renew: the request goes out now
 
-def RN.due (s : RN) : Bool := s.mode != .dead && decide (s.wakeAt ≤ s.now)
+def RN.due (s : RN) : Bool := (s.mode == .waiting || s.mode == .retrying) && decide (s.wakeAt ≤ s.now)
 
-/-- Timers fire as soon as `now ≥ deadline`: process wakes until none is due. -/
+/-- Timers fire as soon as `now ≥ deadline`: process wakes until none is due (at most two: the retry
+timer, then the re-armed rotation timer with a non-positive duration). -/
 def settle : Nat → RN → RN
   | 0, s => s
   | n + 1, s => if s.due then settle n (wake s) else s
 
-def fuelOf (s : RN) : Nat := 2 * s.script.length + 3
+def settled (s : RN) : RN := settle 3 s
 
-def settled (s : RN) : RN := settle (fuelOf s) s
+/-- The issuer's answer is processed by the rotation goroutine (precondition: mode `inflight`):
+failure of the initial fetch ends `Run`; failure of a renewal arms `clock.After(10 * time.Second)`;
+success swaps `currentSVID` (under the write lock, see the LTS), recomputes the renewal time, re-arms. -/
+def answerCore (s : RN) : RN :=
+  match complete s with
+  | (s1, none) =>
+    if s.reqInit then { s1 with mode := .dead }
+    else { s1 with mode := .retrying, wakeAt := s.now + tenSec, armedAt := s.now,
+                   timers := (s.now, tenSec) :: s1.timers }
+  | (s1, some c) => arm { s1 with svid := some c, renewAt := renewalTime c.nb c.na }
 
-/-- `Run` up to the first wait of the rotation loop: the initial fetch at time `t0`. -/
+/-- The issuer answers the outstanding request. -/
+def answer (s : RN) : RN := if s.mode = .inflight then settled (answerCore s) else s
+
+/-- `Run` is called at time `t0`: the initial request goes out. -/
 def start (dirOn : Bool) (anchors : Nat) (script : List Reply) (t0 : Int) : RN :=
-  let s0 : RN := { now := t0, script := script, dirOn := dirOn, anchors := anchors }
-  match fetch s0 with
-  | (s1, none) => s1                                   -- Run returns the error; no rotation
-  | (s1, some c) => settled (arm { s1 with svid := some c, renewAt := renewalTime c.nb c.na })
+  issue { now := t0, script := script, dirOn := dirOn, anchors := anchors } true
 
 /-- The fake clock is advanced by `d`. -/
 def advance (s : RN) (d : Int) : RN := settled { s with now := s.now + d }
@@ -459,12 +489,15 @@ inductive Act where
   | adv (d : Int)
   | anchors (a : Nat)
   | toWake            -- the clock is advanced exactly to the deadline of the armed timer
+  | answer            -- the issuer answers the outstanding request
   deriving Repr
 
 def act (s : RN) : Act → RN
   | .adv d => advance s d
   | .anchors a => setAnchors s a
-  | .toWake => if s.mode = .dead ∨ s.wakeAt ≤ s.now then s else advance s (s.wakeAt - s.now)
+  | .toWake =>
+    if (s.mode = .waiting ∨ s.mode = .retrying) ∧ s.now < s.wakeAt then advance s (s.wakeAt - s.now) else s
+  | .answer => answer s
 
 /-- The states after each action of a scenario (what the driver prints and the harness compares). -/
 def runActs (s : RN) : List Act → List RN
@@ -474,8 +507,7 @@ def runActs (s : RN) : List Act → List RN
 /-- Scenario well-formedness: the clock only moves forward. -/
 def Act.ok : Act → Bool
   | .adv d => decide (0 < d)
-  | .anchors _ => true
-  | .toWake => true
+  | _ => true
 
 /-- Most recent successful request of a log (newest first). -/
 def lastGood : List Req → Option Nat
